@@ -1,3 +1,426 @@
-use crate::report::ReplayFile;
-pub fn replay(_f: &ReplayFile) -> Result<Option<(String, String)>, String> { Err("todo".into()) }
-pub fn cmd_sym(_tier: &str, _seed: u64, _runs: Option<u64>, _workers: usize, _out: &str, _rd: &str) -> i32 { 2 }
+//! C11: four replicas of the referee driven in lockstep from the four images of one position
+//! (identity, file mirror, colour swap + rank flip, both).  No reference model is involved: the
+//! replicas must simply never diverge.
+use crate::bridge::*;
+use crate::ctx::*;
+use crate::eng;
+use crate::game::Failure;
+use crate::mix::mix_for;
+use crate::model::*;
+use crate::report::*;
+use crate::rng::{mix as mix_seed, Fp, Rng};
+use crate::scenario::*;
+use arimaa_engine_step::{Action, GameState};
+use serde_json::{json, Value};
+use std::collections::BTreeSet;
+use std::panic::{catch_unwind, AssertUnwindSafe};
+use std::sync::atomic::{AtomicU64, Ordering};
+use std::sync::Mutex;
+use std::time::Instant;
+
+struct SymFail {
+    monitor: &'static str,
+    detail: String,
+}
+
+fn image_side(s: Side, sym: u8) -> Side {
+    if sym & 2 != 0 {
+        s.other()
+    } else {
+        s
+    }
+}
+
+fn parse_replicas(board: &Board, side: Side, mv: u128) -> Result<Vec<GameState>, String> {
+    let mut v = vec![];
+    for sym in 0..4u8 {
+        let text = diagram(&transform_board(board, sym), image_side(side, sym), mv);
+        v.push(eng!("GameState::from_str", text.parse::<GameState>()).map_err(|e| format!("image {} rejected: {}", sym, e))?);
+    }
+    Ok(v)
+}
+
+fn image_action_text(text: &str, sym: u8) -> Option<String> {
+    Act::parse(text).map(|a| transform_act(a, sym).text())
+}
+
+/// compare replica `sym` with the image of replica 0; returns the offered list of replica 0
+fn compare(reps: &[GameState], evals: &mut u64) -> Result<Vec<Action>, SymFail> {
+    let va0 = eng!("valid_actions", reps[0].valid_actions());
+    let base: BTreeSet<String> = strs(&va0).into_iter().collect();
+    let t0 = outcome_of(&eng!("is_terminal", reps[0].is_terminal()));
+    for sym in 1..4u8 {
+        *evals += 1;
+        let got: BTreeSet<String> = strs(&eng!("valid_actions", reps[sym as usize].valid_actions())).into_iter().collect();
+        let want: BTreeSet<String> = base.iter().filter_map(|s| image_action_text(s, sym)).collect();
+        if got != want {
+            let only_img: Vec<&String> = got.difference(&want).collect();
+            let only_base: Vec<&String> = want.difference(&got).collect();
+            return Err(SymFail { monitor: "sym.offered_actions", detail: format!("image {} (1 = file mirror, 2 = colour swap + rank flip, 3 = both): offered only in the image {:?}, image of offered actions missing there {:?}\noriginal:\n{}image:\n{}", sym, only_img, only_base, reps[0], reps[sym as usize]) });
+        }
+        let ts = outcome_of(&eng!("is_terminal", reps[sym as usize].is_terminal()));
+        let want_t = match (t0, sym & 2 != 0) {
+            (None, _) => None,
+            (Some(x), false) => Some(x),
+            (Some(Outcome::GoldWin), true) => Some(Outcome::SilverWin),
+            (Some(Outcome::SilverWin), true) => Some(Outcome::GoldWin),
+        };
+        if ts != want_t {
+            return Err(SymFail { monitor: "sym.result", detail: format!("image {}: result {:?}, image of the original's result {:?}\noriginal:\n{}image:\n{}", sym, ts, want_t, reps[0], reps[sym as usize]) });
+        }
+    }
+    Ok(va0)
+}
+
+fn apply_all(reps: &mut [GameState], a: &Action, evals: &mut u64) -> Result<(), SymFail> {
+    let text = a.to_string();
+    let cap0 = eng!("trapped_animal_for_action", reps[0].trapped_animal_for_action(a));
+    let mut images = vec![];
+    for sym in 0..4u8 {
+        let t = image_action_text(&text, sym).ok_or(SymFail { monitor: "sym.action_text", detail: text.clone() })?;
+        let ta: Action = eng!("Action::from_str", t.parse::<Action>()).map_err(|e| SymFail { monitor: "sym.action_text", detail: format!("{}: {}", t, e) })?;
+        *evals += 1;
+        let want = cap0.map(|(sq, pc, g)| (sq_from_engine(&sq).map(|s| transform_sq(s, sym).name()).unwrap_or_default(), kind_of(pc), if sym & 2 != 0 { !g } else { g }));
+        let got = eng!("trapped_animal_for_action", reps[sym as usize].trapped_animal_for_action(&ta)).map(|(sq, pc, g)| (sq.to_string(), kind_of(pc), g));
+        if want != got {
+            return Err(SymFail { monitor: "sym.capture", detail: format!("image {}: capture preview of {} is {:?}, image of the original's {:?}", sym, t, got, want) });
+        }
+        images.push(ta);
+    }
+    for sym in (0..4usize).rev() {
+        reps[sym] = eng!("take_action", reps[sym].take_action(&images[sym]));
+    }
+    Ok(())
+}
+
+/// executes a symmetric run; ops: action texts in replica-0 coordinates and "!restart"
+fn execute_sym(start: &str, ops_in: Option<&[String]>, rng: Option<&mut Rng>, cap: usize, restart_rate: f64, trace: &mut Vec<String>, evals: &mut u64, distinct: &mut FpSet) -> Result<(), SymFail> {
+    let (board, side, mv) = parse_diagram(start).ok_or(SymFail { monitor: "sym.start", detail: "bad start diagram".into() })?;
+    let mut reps = parse_replicas(&board, side, mv).map_err(|e| SymFail { monitor: "sym.start", detail: e })?;
+    // a start position that is its own image under some symmetry exercises nothing for it
+    if (1..4u8).any(|s| transform_board(&board, s) != board || image_side(side, s) != side) {
+        let mut f = Fp::new();
+        f.str(start);
+        distinct.insert(f.finish());
+    }
+    let mut rng = rng;
+    let mut seen: Vec<[u8; 64]> = vec![];
+    let mut i = 0usize;
+    loop {
+        let va = compare(&reps, evals)?;
+        if eng!("is_terminal", reps[0].is_terminal()).is_some() || va.is_empty() {
+            return Ok(());
+        }
+        let op: String = match (&ops_in, &mut rng) {
+            (Some(ops), _) => {
+                if i >= ops.len() {
+                    return Ok(());
+                }
+                ops[i].clone()
+            }
+            (None, Some(rng)) => {
+                if i >= cap {
+                    return Ok(());
+                }
+                let restart = rng.chance(restart_rate);
+                let mut k = rng.below(va.len());
+                let shuffle = rng.chance(0.6);
+                let r2 = rng.next();
+                if restart {
+                    "!restart".to_string()
+                } else {
+                    if shuffle {
+                        let mut back = vec![];
+                        for (j, c) in va.iter().enumerate() {
+                            if let Action::Move(..) = c {
+                                if let Ok(b) = decode_board(eng!("take_action", reps[0].take_action(c)).piece_board()) {
+                                    if seen.contains(&board_key(&b)) {
+                                        back.push(j);
+                                    }
+                                }
+                            }
+                        }
+                        if !back.is_empty() {
+                            k = back[(r2 % back.len() as u64) as usize];
+                        }
+                    }
+                    va[k].to_string()
+                }
+            }
+            _ => return Ok(()),
+        };
+        i += 1;
+        trace.push(op.clone());
+        if op == "!restart" {
+            let b = decode_board(reps[0].piece_board()).map_err(|e| SymFail { monitor: "sym.decode", detail: e })?;
+            let s = if reps[0].is_p1_turn_to_move() { Side::Gold } else { Side::Silver };
+            reps = parse_replicas(&b, s, reps[0].move_number() as u128).map_err(|e| SymFail { monitor: "sym.restart", detail: e })?;
+            continue;
+        }
+        let a = va.iter().find(|a| a.to_string() == op).ok_or(SymFail { monitor: "sym.invalid_op", detail: format!("{} is not offered", op) })?;
+        if let Ok(b) = decode_board(reps[0].piece_board()) {
+            seen.push(board_key(&b));
+            if seen.len() > 10 {
+                seen.remove(0);
+            }
+        }
+        apply_all(&mut reps, a, evals)?;
+    }
+}
+
+fn guarded(start: &str, ops_in: Option<&[String]>, rng: Option<&mut Rng>, cap: usize, restart_rate: f64, trace: &mut Vec<String>, evals: &mut u64, distinct: &mut FpSet) -> Result<Option<SymFail>, String> {
+    crumb_take();
+    set_quiet(true);
+    let r = catch_unwind(AssertUnwindSafe(|| execute_sym(start, ops_in, rng, cap, restart_rate, trace, evals, distinct)));
+    set_quiet(false);
+    match r {
+        Ok(Ok(())) => Ok(None),
+        Ok(Err(f)) if f.monitor == "sym.invalid_op" && ops_in.is_some() => Err(f.detail),
+        Ok(Err(f)) => Ok(Some(f)),
+        Err(_) => {
+            let msg = last_panic_take().unwrap_or_default();
+            match crumb_take() {
+                // an engine panic is C19's business; the symmetric run just ends
+                Some(_) => Ok(None),
+                None => Err(format!("harness panic: {}", msg)),
+            }
+        }
+    }
+}
+
+pub fn replay(f: &ReplayFile) -> Result<Option<(String, String)>, String> {
+    let start = match f.start() {
+        Start::Diagram(t) => t,
+        Start::Initial => return Err("symmetric runs start from a diagram".into()),
+    };
+    let ops = f.ops();
+    let mut trace = vec![];
+    let mut evals = 0;
+    let mut d = FpSet::default();
+    match guarded(&start, Some(&ops), None, 0, 0.0, &mut trace, &mut evals, &mut d) {
+        Ok(Some(fl)) => Ok(Some((fl.monitor.to_string(), fl.detail))),
+        Ok(None) => Ok(None),
+        // an operation that is not offered means this candidate is not a run at all
+        Err(_) => Ok(None),
+    }
+}
+
+fn minimise_sym(start: &str, ops: &[String], monitor: &str) -> (String, Vec<String>, String) {
+    let mut best_ops = ops.to_vec();
+    let mut best_start = start.to_string();
+    let mut detail = String::new();
+    let mut budget = 1500;
+    let mut test = |s: &str, o: &[String], budget: &mut i32| -> Option<(Vec<String>, String)> {
+        if *budget <= 0 {
+            return None;
+        }
+        *budget -= 1;
+        let mut trace = vec![];
+        let mut e = 0;
+        let mut d = FpSet::default();
+        match guarded(s, Some(o), None, 0, 0.0, &mut trace, &mut e, &mut d) {
+            Ok(Some(f)) if f.monitor == monitor => Some((trace, f.detail)),
+            _ => None,
+        }
+    };
+    if let Some((t, d)) = test(&best_start, &best_ops, &mut budget) {
+        best_ops = t;
+        detail = d;
+    }
+    let mut chunk = (best_ops.len() / 2).max(1);
+    loop {
+        let mut i = 0;
+        let mut progress = false;
+        while i < best_ops.len() && budget > 0 {
+            let end = (i + chunk).min(best_ops.len());
+            let mut cand = best_ops[..i].to_vec();
+            cand.extend_from_slice(&best_ops[end..]);
+            if let Some((t, d)) = test(&best_start, &cand, &mut budget) {
+                best_ops = t;
+                detail = d;
+                progress = true;
+            } else {
+                i += chunk;
+            }
+        }
+        if budget <= 0 || best_ops.is_empty() {
+            break;
+        }
+        if chunk == 1 {
+            if !progress {
+                break;
+            }
+        } else {
+            chunk /= 2;
+        }
+    }
+    if let Some((mut board, side, mv)) = parse_diagram(&best_start) {
+        let mut changed = true;
+        while changed && budget > 0 {
+            changed = false;
+            for i in 0..64 {
+                if board[i].is_none() {
+                    continue;
+                }
+                let saved = board[i];
+                board[i] = None;
+                if !unsupported_on_traps(&board).is_empty() {
+                    board[i] = saved;
+                    continue;
+                }
+                let cand = diagram(&board, side, mv);
+                if let Some((t, d)) = test(&cand, &best_ops, &mut budget) {
+                    best_start = cand;
+                    best_ops = t;
+                    detail = d;
+                    changed = true;
+                } else {
+                    board[i] = saved;
+                }
+            }
+        }
+    }
+    (best_start, best_ops, detail)
+}
+
+pub fn cmd_sym(tier: &str, seed: u64, runs_override: Option<u64>, workers: usize, out: &str, replay_dir: &str) -> i32 {
+    let runs = runs_override.unwrap_or(if tier == "thorough" { 1_200_000 } else { 50_000 });
+    let t0 = Instant::now();
+    let wall_cap = if tier == "thorough" { 1500.0 } else { 150.0 };
+    let next = AtomicU64::new(0);
+    let stop_at = AtomicU64::new(u64::MAX);
+    struct Acc {
+        evals: u64,
+        steps: u64,
+        restarts: u64,
+        distinct: FpSet,
+        fails: Vec<(u64, String, Vec<String>, &'static str, String)>,
+        harness: Option<String>,
+        samples: Vec<Value>,
+        done: u64,
+        truncated: bool,
+    }
+    let acc = Mutex::new(Acc { evals: 0, steps: 0, restarts: 0, distinct: FpSet::default(), fails: vec![], harness: None, samples: vec![], done: 0, truncated: false });
+    let mix = mix_for(11);
+    std::thread::scope(|s| {
+        for _ in 0..workers.max(1) {
+            s.spawn(|| {
+                let mut evals = 0u64;
+                let mut steps = 0u64;
+                let mut restarts = 0u64;
+                let mut distinct = FpSet::default();
+                let mut fails = vec![];
+                let mut harness = None;
+                let mut samples = vec![];
+                let mut done = 0;
+                let mut truncated = false;
+                loop {
+                    let idx = next.fetch_add(1, Ordering::SeqCst);
+                    if idx >= runs || idx > stop_at.load(Ordering::SeqCst) {
+                        break;
+                    }
+                    if t0.elapsed().as_secs_f64() > wall_cap {
+                        truncated = true;
+                        break;
+                    }
+                    let mut rng = Rng::new(mix_seed(seed ^ 0x5157, idx));
+                    let fam = loop {
+                        let f = FAMILIES[rng.weighted(&mix.families)];
+                        if f != Family::Setup {
+                            break f;
+                        }
+                    };
+                    let start = match generate(&mut rng, fam) {
+                        Start::Diagram(t) => t,
+                        Start::Initial => continue,
+                    };
+                    let cap = *rng.pick(&[30usize, 120, 400]);
+                    let restart_rate = *rng.pick(&[0.0, 0.0, 0.02, 0.1]);
+                    let mut trace = vec![];
+                    let r = guarded(&start, None, Some(&mut rng), cap, restart_rate, &mut trace, &mut evals, &mut distinct);
+                    done += 1;
+                    steps += trace.len() as u64;
+                    restarts += trace.iter().filter(|o| *o == "!restart").count() as u64;
+                    if idx < 3 {
+                        samples.push(json!({"run": idx, "family": fam.name(), "start": start, "ops_first_60": trace.iter().take(60).cloned().collect::<Vec<_>>(), "ops_total": trace.len()}));
+                    }
+                    match r {
+                        Ok(None) => {}
+                        Ok(Some(f)) => {
+                            stop_at.fetch_min(idx, Ordering::SeqCst);
+                            fails.push((idx, start, trace, f.monitor, f.detail));
+                        }
+                        Err(m) => {
+                            stop_at.fetch_min(idx, Ordering::SeqCst);
+                            harness = Some(format!("run {}: {}", idx, m));
+                        }
+                    }
+                }
+                let mut g = acc.lock().unwrap();
+                g.evals += evals;
+                g.steps += steps;
+                g.restarts += restarts;
+                for x in distinct {
+                    g.distinct.insert(x);
+                }
+                g.fails.extend(fails);
+                if g.harness.is_none() {
+                    g.harness = harness;
+                }
+                g.samples.extend(samples);
+                g.done += done;
+                g.truncated |= truncated;
+            });
+        }
+    });
+    let mut g = acc.into_inner().unwrap();
+    if let Some(h) = &g.harness {
+        eprintln!("HARNESS-ERROR: {}", h);
+        return 2;
+    }
+    g.fails.sort_by_key(|f| f.0);
+    g.samples.sort_by_key(|v| v["run"].as_u64().unwrap_or(0));
+    let mut exit = 0;
+    if let Some((idx, start, ops, monitor, detail)) = g.fails.first() {
+        let (ms, mo, md) = minimise_sym(start, ops, monitor);
+        let f = Failure { run: *idx, prop: 11, monitor: monitor.to_string(), detail: if md.is_empty() { detail.clone() } else { md }, start: Start::Diagram(ms), op_index: mo.len().saturating_sub(1), ops: mo };
+        let path = format!("{}/C11-{}-{}.json", replay_dir, seed, idx);
+        if let Err(e) = ReplayFile::from_failure(&f, seed, "sym").write(&path) {
+            eprintln!("HARNESS-ERROR: {}", e);
+            return 2;
+        }
+        match confirm_in_fresh_process(&path) {
+            Ok(true) => {}
+            _ => {
+                eprintln!("HARNESS-ERROR: replay of {} in a fresh process did not reproduce the violation", path);
+                return 2;
+            }
+        }
+        println!("violation: property C11 monitor {} after {} operations (run {}, seed {}): {}", f.monitor, f.ops.len(), idx, seed, f.detail);
+        println!("VIOLATION property=C11 replay={}", path);
+        exit = 1;
+    }
+    let wall = t0.elapsed().as_secs_f64();
+    let part = json!({
+        "part": "symmetry_replicas",
+        "evaluations": g.evals,
+        "distinct_nontrivial": g.distinct.len(),
+        "rule": "four lockstep replicas (identity, file mirror, colour swap + rank flip, both) of seeded games from parsed positions, play phase only; a case = one replica compared with the image of replica 0 (offered set incl. what repetition withholds, result, capture preview); non-trivial = distinct start positions that are not their own image under at least one symmetry",
+        "samples": g.samples,
+        "runs": g.done,
+        "runs_planned": runs,
+        "truncated_by_wall_clock": g.truncated,
+        "lockstep_operations": g.steps,
+        "faults_injected_and_effective": {"fault.restart_all_replicas": g.restarts},
+        "runs_per_hour": if wall > 0.0 { (g.done as f64 / wall * 3600.0) as u64 } else { 0 },
+        "wall_s": wall,
+        "violations": exit,
+        "real_vs_stub": {"real": "four instances of the engine's GameState", "stub": "players, symmetry maps (the only oracle code)"}
+    });
+    if std::fs::write(out, serde_json::to_string_pretty(&part).unwrap()).is_err() {
+        eprintln!("HARNESS-ERROR: cannot write {}", out);
+        return 2;
+    }
+    println!("C11 symmetry part: {} runs, {} lockstep operations, {} comparisons, {} asymmetric starts, {:.1}s", g.done, g.steps, g.evals, g.distinct.len(), wall);
+    exit
+}
